@@ -36,6 +36,9 @@ theorem usub_small {w a b : Nat} (hb : b ≤ a) (ha : a < 2 ^ w) : usub w a b = 
   rw [Nat.mod_eq_of_lt (by omega : b < 2 ^ w)]
   have : a + 2 ^ w - b = 2 ^ w + (a - b) := by omega
   rw [this, Nat.add_mod_left]; exact Nat.mod_eq_of_lt (by omega)
+theorem usub_zero_pos {w a : Nat} (h0 : 0 < a) (ha : a < 2 ^ w) : usub w 0 a = 2 ^ w - a := by
+  unfold usub
+  rw [Nat.mod_eq_of_lt ha, Nat.zero_add]; exact Nat.mod_eq_of_lt (by omega)
 theorem uneg_pos {w a : Nat} (h0 : 0 < a) (ha : a < 2 ^ w) : uneg w a = 2 ^ w - a := by
   unfold uneg
   rw [Nat.mod_eq_of_lt ha]; exact Nat.mod_eq_of_lt (by omega)
@@ -281,7 +284,7 @@ theorem step2_32 (len : Nat) (base : Int) (hb : toU 32 base ≠ 0) (hl : len < 2
   have h5 : pos < len → uadd 64 pos 1 = pos + 1 := fun h => uadd_small (by omega)
   simp only [UInt32ToStrBaseSign_loop2_step, emitStepSpec]
   simp only [toS8_digit hd, cget_digit _ hd, cinb_digit _ hd, toU_ofNat h3, h4, e1, e2, Bool.or_false, Bool.not_true]
-  by_cases hpl : pos < len <;> simp [hpl, h5]
+  by_cases hpl : pos < len <;> simp [hpl, h5] <;> (try split) <;> simp_all <;> omega
 
 theorem loops32 {len : Nat} {base : Int} (hb : 2 ≤ toU 32 base) (hb16 : toU 32 base ≤ 16) (hl : len < 2 ^ 64)
     {x0 : Nat} (he : entryOK 32 (toU 32 base) x0 = true) {uval : Nat} (hu0 : 0 < uval) (hu : uval < 2 ^ 32)
@@ -376,15 +379,16 @@ theorem gen32_written (val len : Nat) (base : Int) (sign : Bool) (hv : val < 2 ^
             have hc : canon 32 val base true = '-' :: specDigits 10 (4294967296 - val) := by
               simp [canon, heff, hge]
             have hn : uneg 32 val = 4294967296 - val := by rw [uneg_pos (by omega) hv]
+            have hn' : usub 32 0 val = 4294967296 - val := by rw [usub_zero_pos (by omega) hv]
             simp only [UInt32ToStrBaseSign, e0, e2, e8, e16, hS]
             by_cases h0 : 0 < len
-            · simp [hge, h0, hn, hU]
+            · simp [hge, h0, hn, hn', hU]
               c_loops32
               rw [hb, hc]
               exact written_pos1 _ _ h0 _ (by simp)
             · have : len = 0 := by omega
               subst this
-              simp [hge, hn]
+              simp [hge, hn, hn']
               c_loops32
               rw [hb, hc]
               simp [written, logOf]
@@ -425,7 +429,7 @@ theorem step2_64 (len : Nat) (base : Int) (hb : toU 64 base ≠ 0) (hl : len < 2
   have h5 : pos < len → uadd 64 pos 1 = pos + 1 := fun h => uadd_small (by omega)
   simp only [UInt64ToStrBaseSign_loop2_step, emitStepSpec]
   simp only [toS8_digit hd, cget_digit _ hd, cinb_digit _ hd, toU_ofNat h3, h4, e1, e2, Bool.or_false, Bool.not_true]
-  by_cases hpl : pos < len <;> simp [hpl, h5]
+  by_cases hpl : pos < len <;> simp [hpl, h5] <;> (try split) <;> simp_all <;> omega
 
 theorem loops64 {len : Nat} {base : Int} (hb : 2 ≤ toU 64 base) (hb16 : toU 64 base ≤ 16) (hl : len < 2 ^ 64)
     {x0 : Nat} (he : entryOK 64 (toU 64 base) x0 = true) {uval : Nat} (hu0 : 0 < uval) (hu : uval < 2 ^ 64)
@@ -520,15 +524,16 @@ theorem gen64_written (val len : Nat) (base : Int) (sign : Bool) (hv : val < 2 ^
             have hc : canon 64 val base true = '-' :: specDigits 10 (18446744073709551616 - val) := by
               simp [canon, heff, hge]
             have hn : uneg 64 val = 18446744073709551616 - val := by rw [uneg_pos (by omega) hv]
+            have hn' : usub 64 0 val = 18446744073709551616 - val := by rw [usub_zero_pos (by omega) hv]
             simp only [UInt64ToStrBaseSign, e0, e2, e8, e16, hS]
             by_cases h0 : 0 < len
-            · simp [hge, h0, hn, hU]
+            · simp [hge, h0, hn, hn', hU]
               c_loops64
               rw [hb, hc]
               exact written_pos1 _ _ h0 _ (by simp)
             · have : len = 0 := by omega
               subst this
-              simp [hge, hn]
+              simp [hge, hn, hn']
               c_loops64
               rw [hb, hc]
               simp [written, logOf]
